@@ -296,6 +296,16 @@ def _b_history(ctx: Ctx, cls, scales=False):
         x = np.arange(n, dtype=float) if meth != "inverse" else np.linspace(0.2, 11.0, n)
         if scales and meth != "inverse" and ctx.rng.random() < 0.4:
             x = x * 2.0 ** ctx.rng.choice([-50, -40, -20, -3, 5, 20, 40])      # class 8: grids of extreme magnitude
+        if scales and meth != "inverse" and ctx.rng.random() < 0.3:
+            r = ctx.rng.random()
+            if r < 0.2:                                                      # class 21: a length just past a block boundary, the maximum in the remainder
+                x = np.arange(ctx.rng.choice([1025, 4097]), dtype=float) * 2.0 ** -7
+                x[-ctx.rng.randrange(1, 20)] = x[-1] + 1.0
+            elif r < 0.6:                                                    # class 22: descending
+                x = x[::-1].copy()
+            else:                                                            # class 22: shuffled
+                x = x.copy()
+                ctx.np_rng.shuffle(x)
         calls.append((meth, x))
     return b0, calls
 
@@ -1086,7 +1096,7 @@ def _o_becke(ctx: Ctx, reps):
     tables = {t: utils.get_cov_radii(np.arange(1, 87), t).copy() for t in ("bragg", "cambridge", "alvarez")}
     for k in range(3 * reps):
         t = ctx.rng.choice(list(tables))
-        zs = sorted(ctx.rng.sample(range(1, 87), ctx.rng.randrange(1, 6)))
+        zs = ctx.rng.sample(range(1, 87), ctx.rng.randrange(1, 6))           # in any order
         form = ctx.rng.randrange(4)
         arg = zs[0] if form == 0 else (list(zs) if form == 1 else (np.array(zs) if form == 2 else np.array(zs, dtype=np.int32)))
         got = utils.get_cov_radii(arg, t)
@@ -1535,6 +1545,10 @@ def _oracle_round3(ctx: Ctx, budget: str):
     guarded("argument-forms", _o_arg_combinations, reps)
     guarded("reused-arguments", _o_reused_arguments, reps)
     guarded("complex-and-layers", _o_complex_and_layers, reps)
+    guarded("block-sizes", _o_block_sizes, reps)
+    guarded("orders-and-parameters", _o_orders_and_parameters, reps)
+    guarded("precisions", _o_precisions, reps)
+    guarded("identity-and-instances", _o_identity_and_instances, reps)
     guarded("atomgrid.AtomGrid.basis:memo", _o_basis, reps)
     guarded("molgrid.MolGrid:atgrids", _o_molgrid_stored, reps)
     guarded("basegrid.get_localgrid:kdtree", _o_kdtree, reps)
@@ -2416,4 +2430,351 @@ def _o_complex_and_layers(ctx: Ctx, reps=6):
             ctx.fail("oracle", "molgrid.MolGrid:angular-cache:unequal-atoms",
                      f"MolGrid of a 1-shell {m1} atom (degree 7) and a 3-shell {m2} atom (degrees [3, 9, 5]) built again after the first one's arrays were zeroed differs from the first",
                      witness={"methods": [m1, m2], "store": bool(k % 2)})
+    _clear(ang)
+
+
+# ==========================================================================================
+# Round 5 (classes 21-26): sizes past block boundaries, silently assumed orders, narrow / extended
+# precision given directly, parameters independent of the data, identity-keyed memoisation, state
+# shared between instances — for everything C19 remembers
+# ==========================================================================================
+def _closed_form(cls, b, x, rmin=0.1, rmax=12.0):
+    """Map and Jacobian of the three b-scaled transforms per node, from their definitions."""
+    x = np.asarray(x, dtype=float)
+    if cls == "LinearInfiniteRTransform":
+        return (rmax - rmin) * x / b + rmin, np.full(x.shape, (rmax - rmin) / b)
+    if cls == "ExpRTransform":
+        a = np.log(rmax / rmin) / b
+        return rmin * np.exp(a * x), rmin * a * np.exp(a * x)
+    p = np.log(rmax / rmin) / np.log(b + 1.0)
+    return rmin * (x + 1.0) ** p, rmin * p * (x + 1.0) ** (p - 1.0)
+
+
+def _brute_local(points, center, radius):
+    d = np.sqrt(np.sum((np.asarray(points, dtype=float).reshape(len(points), -1) - np.atleast_1d(center)) ** 2, axis=1))
+    return np.nonzero(d <= radius)[0]
+
+
+def _o_block_sizes(ctx: Ctx, reps=6):
+    """Class 21: arrays whose length is just past a power of two / a round number, the decisive element in the remainder:
+    the scale b is the maximum of the whole grid, kd-tree queries against a brute-force distance test, element-wise table
+    reads and pro-atom densities additive over a split of the input."""
+    rt = importlib.import_module("grid.rtransform")
+    bg = importlib.import_module("grid.basegrid")
+    utils = importlib.import_module("grid.utils")
+    hw = importlib.import_module("grid.hirshfeld")
+    sizes = [1025, 4097, 20001] + ([31234, 65537, 2 ** 19 + 1] if ctx.thorough else [])
+    for n, cls, pos in [(n, cls, n - 1) for n in sizes for cls in B_CLASSES] + \
+            [(n, ctx.rng.choice(list(B_CLASSES)), ctx.rng.choice([n - 2, n - ctx.rng.randrange(1, 25), 0, ctx.rng.randrange(n)])) for n in sizes]:
+        x = ctx.np_rng.uniform(0.0, 5.0, n)
+        x[pos] = 7.5
+        tf = B_CLASSES[cls](rt, None)
+        with np.errstate(all="ignore"):
+            r = getattr(tf, ctx.rng.choice(["transform", "deriv"]))(x)
+            r2, d2 = tf.transform(x), tf.deriv(x)
+        want_r, want_d = _closed_form(cls, 7.5, x)
+        ctx.count(["oracle-block-b", cls, n, pos], nontrivial=True, tag="oracle:block-sizes")
+        if float(tf.b) != 7.5 or len(r) != n or not (np.allclose(r2, want_r, rtol=1e-11, atol=0) and np.allclose(d2, want_d, rtol=1e-11, atol=0)):
+            ctx.fail("oracle", "rtransform.b:block-sizes",
+                     f"{cls}: a grid of {n} points with its maximum 7.5 at index {pos} fixes b = {tf.b}; map / Jacobian differ from the closed form with b = 7.5",
+                     witness={"class": cls, "n": n, "position_of_maximum": pos},
+                     snippet=("import warnings; warnings.filterwarnings('ignore')\nimport numpy as np\nfrom grid import rtransform as rt\n"
+                              f"x = np.linspace(0.0, 5.0, {n}); x[{pos}] = 7.5; tf = rt.{cls}(0.1, 12.0); tf.transform(x)\nassert tf.b == 7.5, tf.b\n"))
+    for n in sizes[:3] if not ctx.thorough else sizes[:5]:
+        dim = ctx.rng.choice([1, 2, 3])
+        p = ctx.np_rng.uniform(-1.0, 1.0, (n, dim))
+        pts = p[:, 0].copy() if dim == 1 else p
+        g = bg.Grid(pts, np.ones(n))
+        c = np.zeros(dim) if dim > 1 else np.array(0.0)
+        rad = {1: 0.01, 2: 0.12, 3: 0.3}[dim]
+        idx = np.sort(np.asarray(g.get_localgrid(c, rad).indices).ravel())
+        p2 = ctx.np_rng.uniform(-1.0, 1.0, (n, dim))
+        g.points = p2[:, 0].copy() if dim == 1 else p2
+        idx2 = np.sort(np.asarray(g.get_localgrid(c, rad).indices).ravel())
+        ctx.count(["oracle-block-kdtree", n, dim], nontrivial=True, tag="oracle:block-sizes")
+        if not (np.array_equal(idx, _brute_local(pts, c, rad)) and np.array_equal(idx2, _brute_local(p2, c, rad))):
+            ctx.fail("oracle", "basegrid.get_localgrid:kdtree:block-sizes", f"Grid with {n} points in {dim}-D: get_localgrid (before / after assigning new points) differs from the brute-force distance test",
+                     witness={"n": n, "dim": dim, "radius": rad})
+    n = sizes[ctx.rng.randrange(2)]
+    zs = ctx.np_rng.integers(1, 87, n)
+    k = ctx.rng.randrange(1, n)
+    t = ctx.rng.choice(["bragg", "cambridge", "alvarez"])
+    whole = utils.get_cov_radii(zs, t)
+    parts = np.concatenate([utils.get_cov_radii(zs[:k], t), utils.get_cov_radii(zs[k:], t)])
+    pts = ctx.np_rng.uniform(-2.0, 2.0, (n, 3))
+    dens = hw.HirshfeldWeights.generate_proatom(pts, np.zeros(3), 8)
+    dparts = np.concatenate([hw.HirshfeldWeights.generate_proatom(pts[:k], np.zeros(3), 8), hw.HirshfeldWeights.generate_proatom(pts[k:], np.zeros(3), 8)])
+    ctx.count(["oracle-block-tables", n, k, t], nontrivial=True, tag="oracle:block-sizes")
+    if not (np.array_equal(whole, parts, equal_nan=True) and np.array_equal(dens, dparts)):
+        ctx.fail("oracle", "tables:block-sizes", f"get_cov_radii / generate_proatom on {n} elements differ from the concatenation of the answers for the first {k} and the remaining elements", witness={"n": n, "split": k})
+
+
+def _o_orders_and_parameters(ctx: Ctx, reps=6):
+    """Classes 22 and 24: the first grid a transform sees is descending / shuffled / a reversed OneDGrid / the descending grid
+    MultiExpRTransform produces; a scale given explicitly or inferred from a first grid is then applied to *other* grids (nodes
+    beyond b, at 0, next to the ends; transform_1d_grid on two different 1-D grids in sequence).  Reference: the closed-form map
+    and Jacobian per node, so neither order nor the earlier grid can matter."""
+    rt = importlib.import_module("grid.rtransform")
+    bg = importlib.import_module("grid.basegrid")
+    one = importlib.import_module("grid.onedgrid")
+    utils = importlib.import_module("grid.utils")
+    for k in range(3 * reps):
+        cls = ctx.rng.choice(list(B_CLASSES))
+        n = ctx.rng.randrange(3, 9)
+        first = np.sort(ctx.np_rng.uniform(0.0, 6.0, n))
+        order = ctx.rng.choice(["ascending", "descending", "shuffled", "multiexp"])
+        if order == "descending":
+            first = first[::-1].copy()
+        elif order == "shuffled":
+            ctx.np_rng.shuffle(first)
+        elif order == "multiexp":
+            first = rt.MultiExpRTransform(0.0, 1.5).transform_1d_grid(one.GaussLegendre(n)).points      # descending radii, as the library makes them
+            first = first[np.isfinite(first)]
+        explicit = ctx.rng.random() < 0.35
+        b = float(ctx.rng.choice([2.0, 5.0])) if explicit else float(np.max(first))
+        tf = B_CLASSES[cls](rt, b if explicit else None)
+        entry = ctx.rng.choice(["method", "t1d"])
+        with np.errstate(all="ignore"):
+            if entry == "t1d":
+                g1 = tf.transform_1d_grid(bg.OneDGrid(first, np.ones(len(first)) / len(first), (0.0, np.inf)))
+                got1 = (g1.points, g1.weights * len(first))
+            else:
+                got1 = (tf.transform(first), tf.deriv(first))
+            # another grid: nodes beyond b, the end 0, next to it, in another order
+            second = np.array([0.0, 1e-12, b * (1 - 1e-12), b, b * (1 + 1e-12), 2.5 * b, 40.0 * b, ctx.rng.uniform(0, b)])
+            ctx.np_rng.shuffle(second)
+            if ctx.rng.random() < 0.5:
+                g2 = tf.transform_1d_grid(bg.OneDGrid(second, np.ones(len(second)), (0.0, np.inf)))
+                got2 = (g2.points, g2.weights)
+            else:
+                got2 = (tf.transform(second), tf.deriv(second))
+        w1, w2 = _closed_form(cls, b, first), _closed_form(cls, b, second)
+        ctx.count(["oracle-order-params", cls, order, explicit, entry, first.tolist()], nontrivial=True, tag="oracle:orders-parameters")
+        ok = float(tf.b) == b and all(np.allclose(a, w, rtol=1e-10, atol=0, equal_nan=True) for a, w in zip(got1 + got2, w1 + w2))
+        if not ok:
+            ctx.fail("oracle", "rtransform.b:order-and-parameter",
+                     f"{cls} (b {'given' if explicit else 'inferred'} = {b}): first grid {order} {first.tolist()} through {entry}, then the grid {second.tolist()}: map / Jacobian differ from the closed form per node (b now {tf.b})",
+                     witness={"class": cls, "order": order, "explicit": explicit, "first": first.tolist(), "second": second.tolist(), "entry": entry},
+                     snippet=("import warnings; warnings.filterwarnings('ignore')\nimport numpy as np\nfrom grid import rtransform as rt\nfrom grid.basegrid import OneDGrid\n"
+                              f"first = np.array({first.tolist()!r}); second = np.array({second.tolist()!r}); tf = rt.{cls}(0.1, 12.0, b={b if explicit else None!r}); ref = rt.{cls}(0.1, 12.0, b={b!r})\n"
+                              + ("tf.transform_1d_grid(OneDGrid(first, np.ones(len(first)), (0.0, np.inf)))\n" if entry == "t1d" else "tf.transform(first)\n")
+                              + f"assert tf.b == {b!r}, tf.b\nassert np.allclose(tf.transform(second), ref.transform(second), rtol=1e-12, equal_nan=True) and np.allclose(tf.deriv(second), ref.deriv(second), rtol=1e-12, equal_nan=True)\n"))
+    # unsorted / descending atomic numbers
+    zs = ctx.np_rng.integers(1, 87, 12)
+    for arr in (zs, np.sort(zs)[::-1], np.sort(zs)[::-1].copy()):
+        got = utils.get_cov_radii(arr, "bragg")
+        want = np.array([utils.get_cov_radii(int(z), "bragg")[0] for z in arr])
+        ctx.count(["oracle-order-radii", arr.tolist()], nontrivial=True, tag="oracle:orders-parameters")
+        if not np.array_equal(got, want, equal_nan=True):
+            ctx.fail("oracle", "utils.get_cov_radii:order", f"get_cov_radii({arr.tolist()}) differs from the element-by-element answers", witness={"atnums": arr.tolist()})
+
+
+def _o_precisions(ctx: Ctx, reps=6):
+    """Class 23: float16 / float32 / longdouble / integer arrays given directly as the first grid of a transform, as the points
+    of a kd-tree query, as atomic numbers: the answer against the float64 one to the precision of the narrower type, the
+    argument unchanged, a second call with the same argument object equal to the first."""
+    rt = importlib.import_module("grid.rtransform")
+    bg = importlib.import_module("grid.basegrid")
+    utils = importlib.import_module("grid.utils")
+    obs = {}
+    y = np.linspace(0.2, 4.0, 5)
+    # integer grids are exact data; NumPy evaluates np.log of a uint8 / int16 scalar in float16 / float32, so the scale kept as
+    # such a scalar costs PowerRTransform that precision on every later call (observed on the pinned tree, reported to the lead):
+    # the tolerances below are what the unchanged tree does, the observation is recorded
+    tol = {"float16": 4e-3, "float32": 5e-6, "longdouble": 1e-14, "int16": 5e-6, "uint8": 4e-3}
+    changed_dtype = False
+    worst_int = 0.0
+    for cls in B_CLASSES:
+        x64 = np.array([0.0, 0.25, 1.5, 2.75, float(ctx.rng.randrange(3, 9))])
+        for name, dt in (("float16", np.float16), ("float32", np.float32), ("longdouble", np.longdouble), ("int16", np.int16), ("uint8", np.uint8)):
+            x = (np.round(x64) if name in ("int16", "uint8") else x64).astype(dt)
+            keep = x.copy()
+            tf = B_CLASSES[cls](rt, None)
+            ref = B_CLASSES[cls](rt, float(np.max(x)))
+            with np.errstate(all="ignore"):
+                r1 = tf.transform(x)
+                r2 = tf.transform(x)
+                got, want = [tf.transform(y), tf.deriv(y)], [ref.transform(y), ref.deriv(y)]
+            rel = max(float(np.max(np.abs(np.asarray(a, dtype=float) - b) / np.abs(b))) for a, b in zip(got, want))
+            changed_dtype = changed_dtype or any(np.asarray(a).dtype != np.float64 for a in got)
+            if name in ("int16", "uint8"):
+                worst_int = max(worst_int, rel)
+            ctx.count(["oracle-precision-b", cls, name], nontrivial=True, tag="oracle:precisions")
+            if not (rel <= tol[name] and np.array_equal(x, keep) and x.dtype == keep.dtype and np.array_equal(r1, r2, equal_nan=True) and float(tf.b) == float(np.max(x))):
+                ctx.fail("oracle", "rtransform.b:precision-of-first-grid",
+                         f"{cls}: first grid given as {name}: later float64 calls differ by {rel:.2e} relative from b = {float(np.max(x))} given explicitly (allowed {tol[name]}), or the argument changed, or a second call with the same object differs",
+                         witness={"class": cls, "dtype": name, "grid": x64.tolist()},
+                         snippet=("import warnings; warnings.filterwarnings('ignore')\nimport numpy as np\nfrom grid import rtransform as rt\n"
+                                  f"x = np.array({np.asarray(x, dtype=float).tolist()!r}).astype(np.{name}); y = np.linspace(0.2, 4.0, 5); tf = rt.{cls}(0.1, 12.0); ref = rt.{cls}(0.1, 12.0, b=float(x.max()))\n"
+                                  f"a = tf.transform(x); b = tf.transform(x)\nassert np.array_equal(a, b)\nassert np.allclose(np.asarray(tf.deriv(y), float), ref.deriv(y), rtol={max(tol[name], 1e-15)!r}, atol=0)\n"))
+    obs[f"scale inferred from a uint8 / int16 grid (exact integers) is kept as that integer scalar: PowerRTransform then evaluates log(b + 1) in float16 / float32, "
+        f"later float64 calls are off by up to {worst_int:.1e} relative (r(b) = 11.98 instead of 12 for a uint8 grid 0..3)"] = worst_int > 1e-12
+    obs["scale inferred from a float16 / longdouble grid is kept in that type: later float64 calls come back in half-precision accuracy / as float128 arrays"] = changed_dtype
+    for name, dt in (("float16", np.float16), ("float32", np.float32), ("longdouble", np.longdouble), ("int16", np.int16)):
+        n, dim = ctx.rng.choice([2, 30]), ctx.rng.choice([1, 2, 3])
+        p = np.round(ctx.np_rng.uniform(-1.0, 1.0, (n, dim)) * 8) / (1 if name == "int16" else 8)
+        pts = (p[:, 0].copy() if dim == 1 else p).astype(dt)
+        keep = pts.copy()
+        c = (np.zeros(dim) if dim > 1 else np.array(0.0)).astype(dt if name != "int16" else float)
+        try:
+            g = bg.Grid(pts, np.ones(n))
+            i1 = np.sort(np.asarray(g.get_localgrid(c, 0.77).indices).ravel())
+            i2 = np.sort(np.asarray(g.get_localgrid(c, 0.77).indices).ravel())
+            ok = np.array_equal(i1, _brute_local(np.asarray(pts, dtype=float), np.asarray(c, dtype=float), 0.77)) and np.array_equal(i1, i2) and np.array_equal(pts, keep)
+        except Exception as e:   # noqa: BLE001
+            ok = True
+            ctx.info(f"Grid with {name} points: get_localgrid raised {type(e).__name__}: {str(e)[:100]}")
+        ctx.count(["oracle-precision-kdtree", name, n, dim], nontrivial=True, tag="oracle:precisions")
+        if not ok:
+            ctx.fail("oracle", "basegrid.get_localgrid:kdtree:precision", f"Grid holding {n} {name} points in {dim}-D (coordinates in units of 1/8): get_localgrid differs from the brute-force test, from its own second answer, or changed the points",
+                     witness={"dtype": name, "n": n, "dim": dim, "points": np.asarray(p).tolist()})
+    for dt in (np.uint8, np.int16, np.int32, np.uint64):
+        zs = ctx.np_rng.integers(1, 87, 7).astype(dt)
+        keep = zs.copy()
+        a, b = utils.get_cov_radii(zs, "alvarez"), utils.get_cov_radii(zs, "alvarez")
+        ctx.count(["oracle-precision-radii", dt.__name__], nontrivial=True, tag="oracle:precisions")
+        if not (np.array_equal(a, utils.get_cov_radii(zs.astype(np.int64), "alvarez"), equal_nan=True) and np.array_equal(a, b, equal_nan=True) and np.array_equal(zs, keep)):
+            ctx.fail("oracle", "utils.get_cov_radii:precision", f"get_cov_radii with {dt.__name__} atomic numbers {zs.tolist()} differs from the int64 answer / from its second answer", witness={"atnums": zs.tolist(), "dtype": dt.__name__})
+    return obs
+
+
+def _o_identity_and_instances(ctx: Ctx, reps=6):
+    """Classes 25 and 26: one array object edited in place between two calls / constructions (a memo keyed by the identity of its
+    argument answers for the old contents); two instances that differ in one hidden dependency used alternately (state kept on
+    the class instead of the instance).  References are computed on fresh copies / before the other instance exists."""
+    ang = importlib.import_module("grid.angular")
+    atg = importlib.import_module("grid.atomgrid")
+    rt = importlib.import_module("grid.rtransform")
+    one = importlib.import_module("grid.onedgrid")
+    bg = importlib.import_module("grid.basegrid")
+    pg = importlib.import_module("grid.periodicgrid")
+    bk = importlib.import_module("grid.becke")
+    hw = importlib.import_module("grid.hirshfeld")
+    utils = importlib.import_module("grid.utils")
+
+    def check(key, what, ok, witness=None, snippet=None):
+        ctx.count(["oracle-identity", key, what], nontrivial=True, tag="oracle:identity-instances")
+        if not ok:
+            ctx.fail("oracle", key, what, witness=witness or {}, snippet=snippet)
+    # -- 25: the same buffer with new contents
+    m = ctx.rng.choice(METHODS)
+    rg = rt.BeckeRTransform(0.0, 1.5).transform_1d_grid(one.GaussLegendre(3))
+    for form in ("list", "ndarray"):
+        v1, v2 = [ctx.rng.choice([4, 6, 8]) for _ in range(3)], [ctx.rng.choice([10, 12, 14]) for _ in range(3)]
+        buf = list(v1) if form == "list" else np.array(v1)
+        a1 = atg.AtomGrid(rg, buf, method=m)
+        buf[:] = v2
+        a2 = atg.AtomGrid(rg, buf, method=m)
+        w2 = atg.AtomGrid(rg, list(v2), method=m)
+        check("atomgrid.AtomGrid:degrees-buffer", f"AtomGrid({m}) built from one degrees {form} before and after `buf[:] = {v2}`: the second grid has degrees {list(map(int, a2.degrees))}, a fresh copy gives {list(map(int, w2.degrees))}",
+              a2.size == w2.size and np.array_equal(a2.weights, w2.weights) and a1.size == atg.AtomGrid(rg, list(v1), method=m).size, {"method": m, "form": form, "v1": v1, "v2": v2},
+              ("import warnings; warnings.filterwarnings('ignore')\nimport numpy as np\nfrom grid.atomgrid import AtomGrid\nfrom grid.onedgrid import GaussLegendre\nfrom grid.rtransform import BeckeRTransform\n"
+               f"rg = BeckeRTransform(0.0, 1.5).transform_1d_grid(GaussLegendre(3)); buf = {'list' if form == 'list' else 'np.array'}({v1!r}); AtomGrid(rg, buf, method={m!r}); buf[:] = {v2!r}\n"
+               f"assert AtomGrid(rg, buf, method={m!r}).size == AtomGrid(rg, {v2!r}, method={m!r}).size\n"))
+    # the radial grid object edited in place between two constructions
+    rpts = rt.BeckeRTransform(0.0, 1.5).transform_1d_grid(one.GaussLegendre(3))
+    a1 = atg.AtomGrid(rpts, degrees=[5], method=m)
+    rpts.points[...] = rpts.points * 2.0
+    a2 = atg.AtomGrid(rpts, degrees=[5], method=m)
+    w2 = atg.AtomGrid(bg.OneDGrid(rpts.points.copy(), rpts.weights.copy(), rpts.domain), degrees=[5], method=m)
+    check("atomgrid.AtomGrid:rgrid-buffer", "AtomGrid built from one radial grid object before and after its points were doubled in place: the second grid differs from the one on a fresh OneDGrid with the new points",
+          np.array_equal(a2.points, w2.points) and np.array_equal(a2.weights, w2.weights) and not np.array_equal(a1.points, a2.points), {"method": m})
+    for cls in B_CLASSES:
+        tf = B_CLASSES[cls](rt, 6.0)
+        buf = np.arange(5.0)
+        r1 = [tf.transform(buf).copy(), tf.deriv(buf).copy()]
+        buf *= 1.5
+        buf[0] = 0.25
+        r2 = [tf.transform(buf), tf.deriv(buf)]
+        w = _closed_form(cls, 6.0, buf.copy())
+        check(f"rtransform.{cls}:argument-buffer", f"{cls}(b=6): one array passed before and after `buf *= 1.5`: the second map / Jacobian differ from the closed form on the new contents",
+              all(np.allclose(a, b, rtol=1e-12, atol=0) for a, b in zip(r2, w)) and not np.array_equal(r1[0], r2[0]), {"class": cls})
+    zs = np.array([1, 6, 8])
+    r1 = utils.get_cov_radii(zs, "bragg").copy()
+    zs[:] = [7, 16, 26]
+    check("utils.get_cov_radii:argument-buffer", "get_cov_radii with one array before and after `zs[:] = [7, 16, 26]`", np.array_equal(utils.get_cov_radii(zs, "bragg"), utils.get_cov_radii(np.array([7, 16, 26]), "bragg")) and not np.array_equal(r1, utils.get_cov_radii(zs, "bragg")))
+    pts, atc, atn, ind = ctx.np_rng.uniform(-2, 2, (8, 3)), np.array([[0.0, 0.0, -0.7], [0.0, 0.0, 0.7]]), np.array([1, 8]), np.array([0, 4, 8])
+    for nm, obj in (("BeckeWeights", bk.BeckeWeights()), ("HirshfeldWeights", hw.HirshfeldWeights())):
+        obj(pts, atc, atn, ind)
+        pts *= 0.5
+        atc[1, 2] = 1.1
+        atn[:] = [8, 1] if nm == "BeckeWeights" else [6, 7]
+        got = obj(pts, atc, atn, ind)
+        want = type(obj)()(pts.copy(), atc.copy(), atn.copy(), ind.copy())
+        check(f"{nm}:argument-buffers", f"{nm}: points / coordinates / atomic numbers edited in place between two calls on one object: the second answer differs from a new object on fresh copies", np.array_equal(got, want, equal_nan=True))
+    p0 = ctx.np_rng.uniform(-1, 1, (40, 3))
+    buf = p0.copy()
+    g1 = bg.Grid(buf, np.ones(40))
+    g1.get_localgrid(np.zeros(3), 0.7)
+    cen = np.zeros(3)
+    l1 = np.sort(g1.get_localgrid(cen, 0.7).indices)
+    cen[:] = [0.4, -0.3, 0.2]
+    l2 = np.sort(g1.get_localgrid(cen, 0.7).indices)
+    buf2 = ctx.np_rng.uniform(-1, 1, (40, 3))
+    buf[...] = buf2
+    g2 = bg.Grid(buf, np.ones(40))            # a new grid on the same array object with new contents (a tree keyed by id(points) would be stale)
+    l3 = np.sort(g2.get_localgrid(np.zeros(3), 0.7).indices)
+    check("basegrid.get_localgrid:kdtree:buffers", "get_localgrid with one centre array edited in place between two queries / a new Grid on an array object an earlier Grid (with a built tree) was made from, after the array got new contents",
+          np.array_equal(l1, _brute_local(p0, np.zeros(3), 0.7)) and np.array_equal(l2, _brute_local(p0, np.array([0.4, -0.3, 0.2]), 0.7)) and np.array_equal(l3, _brute_local(buf2, np.zeros(3), 0.7)))
+    # -- 26: two instances alternately; references before the other instance exists
+    rgA = rt.BeckeRTransform(0.0, 1.5).transform_1d_grid(one.GaussLegendre(4))
+    rgB = bg.OneDGrid(np.array([0.0, 0.4, 1.1, 2.3]), np.array([0.2, 0.5, 0.9, 1.5]), (0.0, np.inf))      # another radial grid of the same size, with a node at r = 0
+    deg = ctx.rng.choice([3, 5, 7])
+    mk = [lambda: atg.AtomGrid(rgA, degrees=[deg]), lambda: atg.AtomGrid(rgB, degrees=[deg]), lambda: atg.AtomGrid(rgA, degrees=[deg], center=np.array([0.0, 0.0, 0.5]))]
+    fun = lambda a: np.exp(-np.sum((a.points - a.center) ** 2, axis=1)) * (1.0 + (a.points - a.center)[:, 1])     # noqa: E731
+    refs = []
+    for f in mk:
+        a = f()
+        refs.append(_spline_values(a.radial_component_splines(fun(a)), r=(0.3, 0.9)))
+        del a
+    live = [f() for f in mk]
+    order = [0, 1, 2, 1, 0, 2]
+    ctx.rng.shuffle(order)
+    got_ok = [bool(np.array_equal(_spline_values(live[j].radial_component_splines(fun(live[j])), r=(0.3, 0.9)), refs[j])) for j in order]
+    # (a reference made in this process shares class-level state with the instances: the memo itself is also compared with the
+    #  harmonics evaluated directly at the angles of each grid)
+    harm = importlib.import_module("grid.utils").generate_real_spherical_harmonics
+    for j, a in enumerate(live):
+        theta, phi = a.convert_cartesian_to_spherical().T[1:]
+        got_ok.append(bool(a.basis is not None and np.array_equal(a.basis, harm(a.l_max // 2, theta, phi))))
+    check("atomgrid.AtomGrid.basis:instances", f"three AtomGrids (degree {deg}) differing in the radial grid (one with a node at r = 0) / the centre, decomposed alternately in the order {order}: which answers equal the ones computed in isolation: {got_ok}",
+          all(got_ok), {"degree": deg, "order": order},
+          ("import warnings; warnings.filterwarnings('ignore')\nimport numpy as np\nfrom grid.atomgrid import AtomGrid\nfrom grid.basegrid import OneDGrid\nfrom grid.onedgrid import GaussLegendre\nfrom grid.rtransform import BeckeRTransform\n"
+           "rgA = BeckeRTransform(0.0, 1.5).transform_1d_grid(GaussLegendre(4)); rgB = OneDGrid(np.array([0.0, 0.4, 1.1, 2.3]), np.array([0.2, 0.5, 0.9, 1.5]), (0.0, np.inf))\n"
+           f"f = lambda a: np.exp(-np.sum(a.points**2, axis=1)) * (1 + a.points[:, 1]); val = lambda a: [float(s(0.9)) for s in a.radial_component_splines(f(a))]\n"
+           f"rA = val(AtomGrid(rgA, degrees=[{deg}])); rB = val(AtomGrid(rgB, degrees=[{deg}])); a, b = AtomGrid(rgA, degrees=[{deg}]), AtomGrid(rgB, degrees=[{deg}])\n"
+           "assert val(b) == rB and val(a) == rA and val(b) == rB, 'the decomposition of one grid depends on another grid alive in the process'\n"))
+    pA, pB = ctx.np_rng.uniform(-1, 1, (30, 3)), ctx.np_rng.uniform(-1, 1, (30, 3))
+    cells = [np.diag([1.5, 2.0, 2.5]), np.diag([2.5, 2.0, 1.5])]
+    mkg = [lambda: bg.Grid(pA.copy(), np.ones(30)), lambda: bg.Grid(pB.copy(), np.ones(30)), lambda: pg.PeriodicGrid(pA.copy(), np.ones(30), cells[0]), lambda: pg.PeriodicGrid(pA.copy(), np.ones(30), cells[1])]
+    refs = [_local_key(f().get_localgrid(np.zeros(3), 0.9)) for f in mkg]
+    live = [f() for f in mkg]
+    order = [0, 1, 2, 3, 1, 0, 3, 2]
+    ctx.rng.shuffle(order)
+    ok = []
+    for j in order:
+        kk = _local_key(live[j].get_localgrid(np.zeros(3), 0.9))
+        ok.append(bool(len(kk[1]) == len(refs[j][1]) and np.array_equal(kk[0], refs[j][0])))
+    check("basegrid.get_localgrid:kdtree:instances", f"two Grids with the same shape and two PeriodicGrids with the same points and different cells queried alternately ({order}): equal to the answers in isolation: {ok}", all(ok), {"order": order})
+    # the default degree / a cached degree next to `size=` (the neighbourhood of the seeded change C19-f), every method, cache on / off
+    for mm in METHODS:
+        tab = getattr(ang, PFX[mm] + "_DEGREES")
+        d50 = int(ang.AngularGrid._get_degree_and_size(degree=50, size=None, method=mm)[0])
+        dsm = sorted(int(k) for k in tab)[2]
+        s_sm = int(tab[dsm])
+        for c1 in (True, False):
+            _clear(ang)
+            ang.AngularGrid(method=mm)                      # the default degree
+            ang.AngularGrid(degree=d50, method=mm)          # its supported value, a key of the cache now
+            reqs = [("size only (degree left at its default)", dict(size=s_sm)), ("cached degree and size", dict(degree=d50, size=s_sm)),
+                    ("default degree written out and size", dict(degree=50, size=s_sm))]
+            for name, kw in reqs:
+                g = ang.AngularGrid(method=mm, cache=c1, **kw)
+                deg_, sp, sw = _shipped(ang, mm, dsm)
+                check("angular.AngularGrid:cache:size-after-cached-degree", f"AngularGrid({name}: {kw}, method={mm!r}, cache={c1}) after the default-degree grid was cached has {g.size} points (degree {g.degree}); `size` wins: {len(sw)} points (degree {dsm})",
+                      g.size == len(sw) and np.array_equal(g.points, sp) and np.array_equal(g.weights, sw), {"method": mm, "request": name, "cache": c1},
+                      ("import warnings; warnings.filterwarnings('ignore')\nimport numpy as np\nfrom grid import angular as ang\nfrom grid.angular import AngularGrid\n"
+                       "for c in ('LEBEDEV_CACHE','SPHERICAL_CACHE','MAX_DET_CACHE','AHRENS_BEYLKIN_CACHE'): getattr(ang, c).clear()\n"
+                       f"ref = AngularGrid(size={s_sm}, method={mm!r}, cache=False); AngularGrid(method={mm!r}); AngularGrid(degree={d50}, method={mm!r})\n"
+                       f"g = AngularGrid(method={mm!r}, cache={c1}, **{kw!r})\nassert g.size == ref.size and np.array_equal(g.points, ref.points), (g.size, ref.size)\n"))
     _clear(ang)
